@@ -25,6 +25,30 @@ type vdefer struct {
 	Kind    string `json:"kind"`
 	HasNode bool   `json:"has_node"`
 	Block   int    `json:"block"`
+	// a range-over-func call whose yield body defers: one drain statement in the
+	// owner for all defer statements of the body (their lines)
+	Lines []int `json:"lines,omitempty"`
+}
+
+// stackDeferLines lists the defer statements of a range-over-func yield function
+// (and of the yield functions nested in it) that push to the owner's explicit
+// defer stack - the condition under which cl emits DeferStackDrain after the call.
+func stackDeferLines(fset *token.FileSet, fn *ssa.Function, seen map[*ssa.Function]bool) (lines []int) {
+	if fn == nil || seen[fn] {
+		return
+	}
+	seen[fn] = true
+	for _, b := range fn.Blocks {
+		for _, ins := range b.Instrs {
+			if d, ok := ins.(*ssa.Defer); ok && d.DeferStack != nil {
+				lines = append(lines, fset.Position(d.Pos()).Line)
+			}
+		}
+	}
+	for _, c := range fn.AnonFuncs {
+		lines = append(lines, stackDeferLines(fset, c, seen)...)
+	}
+	return
 }
 
 type vfunc struct {
@@ -33,6 +57,11 @@ type vfunc struct {
 	Kinds  []string  `json:"kinds"`
 	Succs  [][]int   `json:"succs"`
 	Defers []vdefer  `json:"defers"`
+	// defer statements of the function itself that push to its explicit defer
+	// stack (go/ssa gives every defer of a function with deferring
+	// range-over-func bodies a DeferStack): cl lowers them with DeferTo, which
+	// pushes a node and registers no replay statement of its own
+	StackLines []int `json:"stack_lines,omitempty"`
 }
 
 func kindName(k llssa.DoAction) string {
@@ -84,12 +113,27 @@ func TestVerif(t *testing.T) {
 		for i := 0; i >= 0; i = infos[i].Next {
 			vf.Order = append(vf.Order, i)
 			for _, ins := range fn.Blocks[i].Instrs {
-				if d, ok := ins.(*ssa.Defer); ok {
+				if d, ok := ins.(*ssa.Defer); ok && d.DeferStack != nil {
+					vf.StackLines = append(vf.StackLines, fset.Position(d.Pos()).Line)
+				} else if ok {
 					k := infos[i].Kind
 					_, closure := d.Call.Value.(*ssa.MakeClosure)
 					_, static := d.Call.Value.(*ssa.Function)
 					has := k == llssa.DeferInLoop || closure || !static || len(d.Call.Args) > 0
 					vf.Defers = append(vf.Defers, vdefer{Line: fset.Position(d.Pos()).Line, Kind: kindName(k), HasNode: has, Block: i})
+				}
+				if c, ok := ins.(*ssa.Call); ok {
+					var lines []int
+					for _, arg := range c.Call.Args {
+						if mc, ok := arg.(*ssa.MakeClosure); ok {
+							if yf, ok := mc.Fn.(*ssa.Function); ok && yf.Synthetic == "range-over-func yield" {
+								lines = append(lines, stackDeferLines(fset, yf, map[*ssa.Function]bool{})...)
+							}
+						}
+					}
+					if len(lines) > 0 {
+						vf.Defers = append(vf.Defers, vdefer{Line: -1, Kind: "InLoop", HasNode: true, Block: i, Lines: lines})
+					}
 				}
 			}
 		}
